@@ -9,8 +9,8 @@ Require Import Laze.model.Base Laze.model.Env Laze.model.Path Laze.model.Allow L
 Open Scope list_scope.
 
 (* field-wise law of defaults: lists of D first, then the module's own; scalars are its own *)
-Theorem C17_defaults_fieldwise : forall y ctx is_binary filename (D : module) m,
-  convert_module y ctx is_binary filename (Some D) = Ok m ->
+Theorem C17_defaults_fieldwise : forall bd y ctx is_binary filename (D : module) m,
+  convert_module bd y ctx is_binary filename (Some D) = Ok m ->
   exists sel uses depends,
     deps_of_specs (odflt [] (ym_selects y)) = Ok sel /\
     rmapM dependency_from_string (odflt [] (ym_uses y)) = Ok uses /\
@@ -22,11 +22,12 @@ Theorem C17_defaults_fieldwise : forall y ctx is_binary filename (D : module) m,
     m_blocklist m = match m_blocklist D with Some d => Some (d ++ odflt [] (ym_blocklist y)) | None => ym_blocklist y end /\
     m_allowlist m = match m_allowlist D with Some d => Some (d ++ odflt [] (ym_allowlist y)) | None => ym_allowlist y end /\
     m_build m = ym_build y /\
-    m_is_build_dep m = ym_is_build_dep y /\ m_is_global_build_dep m = ym_is_global_build_dep y /\
+    m_is_build_dep m = (match ym_download y with Some _ => true | None => ym_is_build_dep y end) /\
+    m_is_global_build_dep m = ym_is_global_build_dep y /\ m_download m = ym_download y /\
     m_name m = match ym_name y with Some n => n | None => parent filename end /\
     m_context_name m = match ctx with Some c => c | None => m_context_name D end /\
     m_notify_all m = (m_notify_all D || ym_notify_all y) /\
-    m_build_dep_files m = m_build_dep_files D.
+    (ym_download y = None -> m_build_dep_files m = m_build_dep_files D).
 Proof. exact convert_module_fields. Qed.
 Print Assumptions C17_defaults_fieldwise.
 
